@@ -172,6 +172,8 @@ struct Obs {
   peer_rx: Vec<Vec<Vec<Vec<u8>>>>,
   /// what each peer sent (payload frames), in order
   peer_tx: Vec<Vec<Vec<Vec<u8>>>>,
+  /// connection epoch (how many times the peer had connected) of each entry of `peer_tx`
+  peer_tx_epoch: Vec<Vec<usize>>,
   /// (target peer, payload, result) of router sends; target usize::MAX = unknown identity
   router_tx: Vec<(usize, Vec<Vec<u8>>, String)>,
   notes: Vec<String>,
@@ -191,7 +193,8 @@ fn run_script(peers: &[PeerCfg], mandatory: bool, script: &[Ev]) -> world::World
     let n = peers.len();
     let mut socks: Vec<Option<Socket>> = (0..n).map(|_| None).collect();
     let mut links: Vec<Option<Link>> = (0..n).map(|_| None).collect();
-    let mut obs = Obs { peer_rx: vec![vec![]; n], peer_tx: vec![vec![]; n], ..Default::default() };
+    let mut obs = Obs { peer_rx: vec![vec![]; n], peer_tx: vec![vec![]; n], peer_tx_epoch: vec![vec![]; n], ..Default::default() };
+    let mut epoch: Vec<usize> = vec![0; n];
     let mut placeholder: Vec<Option<Vec<u8>>> = vec![None; n];
     let mut seq = 0usize;
     async fn drain_peer(kind: PeerKind, s: &Socket, into: &mut Vec<Vec<Vec<u8>>>) {
@@ -211,6 +214,7 @@ fn run_script(peers: &[PeerCfg], mandatory: bool, script: &[Ev]) -> world::World
     for e in &script {
       match *e {
         Ev::Connect(p, held) => {
+          epoch[p] += 1;
           if socks[p].is_none() {
             let ty = match peers[p].kind {
               PeerKind::Dealer => SocketType::Dealer,
@@ -262,6 +266,7 @@ fn run_script(peers: &[PeerCfg], mandatory: bool, script: &[Ev]) -> world::World
             };
             if res.is_ok() {
               obs.peer_tx[p].push(frames);
+              obs.peer_tx_epoch[p].push(epoch[p]);
             }
           }
         }
@@ -377,19 +382,29 @@ fn judge(peers: &[PeerCfg], mandatory: bool, script: &[Ev], obs: &Obs) -> Vec<(S
       }
     }
   }
-  // payload integrity inbound: what ROUTER returned from p is a subsequence-in-order of what p sent
+  // payload integrity inbound: everything ROUTER returned from p is something p sent, at most once,
+  // and in sending order within one connection of p (a peer that reconnects is a new connection:
+  // what its old connection had delivered and what the new one sends are fair-queued, not ordered)
   for (pn, seen) in per_peer_seen.iter().enumerate() {
     let sent = &obs.peer_tx[pn];
-    let mut i = 0;
+    let epochs = &obs.peer_tx_epoch[pn];
+    let mut last_idx_in_epoch: HashMap<usize, usize> = HashMap::new();
+    let mut used = vec![false; sent.len()];
     for s in seen {
-      while i < sent.len() && &sent[i] != s {
-        i += 1;
-      }
-      if i >= sent.len() {
-        v.push(("inbound-payload-changed".into(), format!("{}:{:?}", class, peers[pn].kind), format!("ROUTER returned payload {:?} from peer {} which sent {:?}", s, pn, sent)));
+      let idx = (0..sent.len()).find(|i| !used[*i] && &sent[*i] == s);
+      let Some(i) = idx else {
+        v.push(("inbound-payload-changed".into(), format!("{}:{:?}", class, peers[pn].kind), format!("ROUTER returned payload {:?} from peer {} which sent {:?} (not sent, or returned twice)", s, pn, sent)));
         break;
+      };
+      used[i] = true;
+      let e = epochs.get(i).cloned().unwrap_or(0);
+      if let Some(prev) = last_idx_in_epoch.get(&e) {
+        if *prev > i {
+          v.push(("inbound-payload-changed".into(), format!("{}:{:?}", class, peers[pn].kind), format!("ROUTER returned payload {:?} of peer {} after a later message of the same connection; it sent {:?}", s, pn, sent)));
+          break;
+        }
       }
-      i += 1;
+      last_idx_in_epoch.insert(e, i);
     }
   }
   // ---- outbound ----
